@@ -154,9 +154,12 @@ Qed.
 Lemma bal_text raw : raw_scan_ok raw = true -> bal raw.
 Proof.
   unfold raw_scan_ok. intros H. apply andb_true_iff in H. destruct H as [E L].
-  apply text_eqb_eq in E. intros p rest Hp. rewrite E. cbn [app SP.p_expr].
-  change (34 =? S.r_quote) with true. cbv iota. rewrite <- app_assoc. cbn [app].
-  rewrite (lit_ext _ _ _ _ L), pre_ext, ext_ext. rewrite <- app_assoc. reflexivity.
+  apply text_eqb_eq in E. set (body := removelast (tl raw)) in *. clearbody body. subst raw.
+  intros p rest Hp.
+  change ((34 :: body ++ [34]) ++ rest) with (34 :: (body ++ [34]) ++ rest).
+  rewrite <- app_assoc. cbn [app]. cbn [SP.p_expr].
+  change (34 =? S.r_quote) with true. cbv iota.
+  rewrite (lit_ext _ _ _ _ L), pre_ext, ext_ext. reflexivity.
 Qed.
 
 Lemma bal_args args : Forall (fun a => bal (print3 a)) args -> bal (print_args args).
@@ -197,7 +200,7 @@ Proof.
     apply bal_app; [apply bal_plain; repeat constructor; unfold S.r_quote, S.r_lparen, S.r_rparen; lia | apply IHt; assumption].
   - apply andb_true_iff in Hl. destruct Hl as [Ha Hb]. apply andb_true_iff in Hs. destruct Hs as [Sa Sb].
     cbn [print3]. apply bal_app; [apply IHt1; assumption|].
-    change (32 :: op_text o ++ 32 :: print3 t2) with ((32 :: op_text o ++ [32]) ++ print3 t2) by (cbn; rewrite <- app_assoc; reflexivity).
+    replace (32 :: op_text o ++ 32 :: print3 t2) with ((32 :: op_text o ++ [32]) ++ print3 t2) by (cbn [app]; rewrite <- app_assoc; reflexivity).
     apply bal_app; [apply bal_plain; apply op_plain | apply IHt2; assumption].
 Qed.
 
@@ -231,7 +234,8 @@ Qed.
 Section Rescan.
   Variable isln : N -> bool.
   Variable lower_rune : N -> N.
-  Hypothesis isln_eof : isln S.eof = false.
+  Hypothesis isln_eof : isln S.eof = false.       (* unicode.IsLetter(0) = unicode.IsNumber(0) = false *)
+  Hypothesis isln_at : isln S.r_at = false.       (* '@' is neither a letter nor a number *)
 
   Let tops := Some run_top_levels.
   Let pscan := SP.p_scan isln lower_rune tops true.
@@ -266,7 +270,7 @@ Section Rescan.
     destruct (d =? S.r_at); [unfold SP.p_scan_body in Ep; inversion Ep|].
     destruct (S.is_name_char isln d); [|unfold SP.p_scan_body in Ep; inversion Ep].
     unfold SP.p_scan_ident in Ep.
-    pose proof (SP.ident_spec isln (d :: r') [] []) as Hspec.
+    pose proof (SP.ident_spec isln isln_at (d :: r') [] []) as Hspec.
     destruct (SP.p_ident isln (d :: r') [] []) as [[ident top] k].
     destruct Hspec as (idp & Hb & Hw & _). cbn [app] in Hb. subst ident.
     destruct (SP.allowed tops (map lower_rune (if S.text_eqb top [] then idp else top))); inversion Ep; subst.
